@@ -13,7 +13,7 @@
    holds whatever they return, except C15_histogram_mass which names its hypothesis.
    [quad p] = (count, missing, minimum, maximum) of p. *)
 From Coq Require Import List ZArith NArith Bool.
-From Orso Require Import Gen.C15_Profiler Model.C15 Proofs.C15 Proofs.C15_Text Proofs.C15_Inst Proofs.C15_Session Proofs.C15_Cells.
+From Orso Require Import Gen.C15_Profiler Model.C15 Proofs.C15 Proofs.C15_Text Proofs.C15_Inst Proofs.C15_Session Proofs.C15_Cells Proofs.C15_Objects.
 Import ListNotations.
 Open Scope Z_scope.
 
@@ -411,6 +411,41 @@ Example C15_example_cells :
   let q := profile_x 1000000 1 (fun k => (Z.to_N (fst k) + snd k)%N) (fun d => [(0%N, zlen d)]) true z in
   estimate_cardinality q = Some 2 /\ p_kmv q = [0%N; 1500000%N] /\ p_mfv q = [((0, 0%N), 2); ((1500000, 0%N), 1)].
 Proof. vm_compute. repeat split. Qed.
+
+(* ---------- profile objects in the caller's hands, frames with two columns (round 6) ----------
+   [prun addf dflt store ops]: a store of profile objects; [PAdd i j] appends obj_i + obj_j, [PCopy i]
+   appends a copy of obj_i, [PRead i] reads obj_i.  An addition (or a copy) creates a new object:
+   whatever was added, copied and read before, reading one of the original objects returns it as it
+   was - in particular the operands of profile(a) + profile(b) are still the profiles of a and b. *)
+Theorem C15_add_leaves_operands :
+  forall (P : Type) (addf : P -> P -> P) (dflt : P) store ops1 ops2 i, (i < length store)%nat ->
+  prun addf dflt store (ops1 ++ PRead i :: ops2) =
+  prun addf dflt store ops1 ++ nth i store dflt :: prun addf dflt (pfinal addf dflt store ops1) ops2.
+Proof. exact prun_read_stable. Qed.
+Print Assumptions C15_add_leaves_operands.
+
+(* A frame whose rows are pairs and whose own schema names the two fields (n1, n2): the column
+   profile under n1 is the profile of the first column, under n2 of the second, whatever other
+   frame (the same records under the names (n2, n1), say) was profiled before - nothing but this
+   frame's schema and rows enters. *)
+Theorem C15_column_profile_by_own_schema :
+  forall (X P : Type) (profile_of : list X -> P) (n1 n2 : N) (c d : list X),
+  n1 <> n2 -> length c = length d ->
+  tprofile2 profile_of (n1, n2) (combine c d) n1 = Some (profile_of c) /\
+  tprofile2 profile_of (n1, n2) (combine c d) n2 = Some (profile_of d) /\
+  (forall nm, nm <> n1 -> nm <> n2 -> tprofile2 profile_of (n1, n2) (combine c d) nm = None).
+Proof. exact @tprofile2_spec. Qed.
+Print Assumptions C15_column_profile_by_own_schema.
+
+Example C15_example_objects :
+  let prof := profile_num 1 Z.to_N (fun d => [(0%N, zlen d)]) true in
+  let a := prof [Some 3; Some 1] in let b := prof [Some 2; None] in
+  let addf := add Z.eqb N (fun x _ => x) in
+  map (fun p => (quad p, p_kmv p))
+      (prun addf (empty_profile 0 0) [a; b] [PAdd 0 1; PRead 0; PRead 1; PAdd 0 1; PRead 3]) =
+  [((2, 0, Some 1, Some 3), [1%N; 3%N]); ((2, 1, Some 2, Some 2), [2%N]); ((4, 1, Some 1, Some 3), [1%N; 2%N; 3%N])] /\
+  tprofile2 (@length Z) (1%N, 0%N) (combine [1; 2; 3] [7; 8]%Z) 0%N = Some 2%nat.
+Proof. vm_compute. split; reflexivity. Qed.
 
 (* ---------- non-vacuity ---------- *)
 (* the premises are satisfiable: the regenerated constants are positive, Z and text are total
